@@ -10,8 +10,19 @@ Group `Codec` (coq/Gen/Codec.v), regenerated from /repo on every run:
     declared size above 1032 times the compressed bytes).
 The C07 safety theorem is stated about a model that calls these generated definitions, so an edit of
 the index arithmetic in /repo changes the definitions the proof is checked against.
+
+Group `EncodeC06` (coq/Gen/EncodeC06.v): the ENCODER side as statement slices (a straight-line block, a condition, or ONE
+iteration of a loop; stores, calls and returns as ghost outputs): libb64/cencode.c (init, the three labelled groups of
+base64_encode_block, the cases of base64_encode_blockend), sc_io_adler32_init, sc_io_noncompress, sc_io_encode,
+sc_io_encode_zlib (both configurations, must agree outside the compression call), sc_vtk_write_binary,
+sc_vtk_write_compressed.  Uses the desugaring add-on of groups_C07.py and the rewriting rules documented at `prep`;
+the parameter list of every slice is fixed (EXPECT_PARAMS).  coq/C06/EncodeGen.v + EncodeRun.v prove the models equal.
+
+Group `StaticC06` (coq/Gen/StaticC06.v): census of the objects with static storage duration in sc_puff.c, cencode.c,
+cdecode.c with the functions that read / write / pass on each (see `census`); coq/C06/PuffProcess.v proves that it is
+exactly the static cache of fixed () that the process model has.
 """
-import os, copy, json
+import os, copy, json, re
 
 
 def register(GROUPS, c2g, incs, REPO, HERE, STRUCTS, Group):
@@ -139,3 +150,576 @@ def register(GROUPS, c2g, incs, REPO, HERE, STRUCTS, Group):
         return g, [fe, fd, fio]
 
     GROUPS["Codec"] = gen_codec
+
+    # --------------------------------------------------------------------------------------------------------
+    # Group `EncodeC06` (coq/Gen/EncodeC06.v): the ENCODER side as slices
+    # --------------------------------------------------------------------------------------------------------
+    def c07_tools():
+        """The desugaring add-on (x++ inside expressions, stores through pointers as ghost outputs, returns as ghost
+        outputs, loop steps) is the one of tools/c2g/groups_C07.py, documented at the top of that file.  Its classes live
+        inside groups_C07.register; they are taken from the closure of the registered group function, so that there is ONE
+        copy of the add-on in the trusted base.  If that file is reorganised this group FAILS (tie reported as broken)."""
+        f = GROUPS.get("DecodeC07")
+        if f is None or not f.__closure__:
+            raise c2g.Unsupported("EncodeC06 needs the desugaring add-on of groups_C07.py (group DecodeC07 not registered)")
+        cl = dict(zip(f.__code__.co_freevars, [c.cell_contents for c in f.__closure__]))
+        for need in ("Emitter", "Desugar", "ARRAYS", "TABLES", "stmts_of", "one"):
+            if need not in cl:
+                raise c2g.Unsupported("EncodeC06: groups_C07.py no longer provides %s" % need)
+        return cl
+
+    EXPECT_PARAMS = {'adler32_init': [],
+     'b64e_codechar_init': ['code_out'],
+     'b64e_end_return': ['codechar', 'code_out'],
+     'b64e_end_step_A': [],
+     'b64e_end_step_B': ['codechar', 'state_in_result'],
+     'b64e_end_step_C': ['codechar', 'state_in_result'],
+     'b64e_end_switch_on': ['state_in_step'],
+     'b64e_enter': ['state_in_result'],
+     'b64e_init': ['step_A'],
+     'b64e_plainchar_init': ['plaintext_in'],
+     'b64e_plaintextend_init': ['plaintext_in', 'length_in'],
+     'b64e_step_A': ['pt_at', 'plainchar', 'plaintextend', 'result', 'step_A', 'codechar', 'code_out', 'fragment', 'state_in_result', 'state_in_step'],
+     'b64e_step_B': ['pt_at', 'plainchar', 'plaintextend', 'result', 'step_B', 'codechar', 'code_out', 'fragment', 'state_in_result', 'state_in_step'],
+     'b64e_step_C': ['pt_at', 'plainchar', 'plaintextend', 'result', 'step_C', 'codechar', 'code_out', 'fragment', 'state_in_stepcount', 'state_in_result', 'state_in_step'],
+     'b64e_switch_on': ['state_in_step'],
+     'b64e_unreachable_return': ['codechar', 'code_out'],
+     'enc_compress_nz': ['input_size', 'compressed_array', 'original_size', 'data_array'],
+     'enc_compress_z': ['input_size', 'compressBound_ret', 'compressed_array', 'original_size', 'data_array', 'zlib_compression_level', 'compress2_ret',
+                        'input_compress_bound'],
+     'enc_default_break': [],
+     'enc_default_level': [],
+     'enc_finish': [],
+     'enc_input_size': ['out', 'data_elem_count', 'data_elem_size'],
+     'enc_line_init': [],
+     'enc_line_step': ['zlin', 'base64_lines', 'opos', 'ipos', 'irem', 'lout', 'base_out', 'base64_encode_block_ret', 'line_break_character', 'base64_encode_blockend_ret'],
+     'enc_prepare': ['out', 'data', 'input_compress_bound', 'compressed_array', 'out_array'],
+     'enc_size_init': [],
+     'enc_size_step': ['i', 'input_size'],
+     'nonc_block': ['src_size', 'bsize', 'dest', 'dest_size', 'src', 'adler'],
+     'nonc_header': ['dest', 'dest_size'],
+     'nonc_trailer': ['dest', 'adler'],
+     'vtkb_chunk_step': ['remaining', 'writenow', 'base_length', 'chunks', 'chunksize', 'numeric_data', 'base_data', 'base64_encode_block_ret', 'vtkfile'],
+     'vtkb_finish': ['base_data', 'base64_encode_blockend_ret', 'vtkfile', 'sc_package_id', 'ferror_ret'],
+     'vtkb_header': ['byte_length', 'sc_package_id', 'sc_malloc_ret', 'addr_of_int_header', 'base64_encode_block_ret', 'vtkfile'],
+     'vtkc_block_init': [],
+     'vtkc_block_step': ['theblock', 'numregularblocks', 'comp_length', 'compress2_in_comp_length', 'retval', 'base_length', 'code_length', 'comp_data', 'numeric_data',
+                         'blocksize', 'compress2_ret', 'base_data', 'base64_encode_block_ret', 'vtkfile'],
+     'vtkc_dummy_header': ['compression_header', 'header_size', 'base_data', 'base64_encode_block_ret', 'base64_encode_blockend_ret', 'vtkfile', 'ftell_ret'],
+     'vtkc_finish': ['base_data', 'base64_encode_blockend_ret', 'vtkfile', 'ftell_ret', 'compression_header', 'header_size', 'base64_encode_block_ret',
+                     'base64_encode_blockend2_ret', 'header_pos', 'fseek_ret', 'fseek2_ret', 'sc_package_id', 'comp_data', 'ferror_ret'],
+     'vtkc_has_last': ['lastsize'],
+     'vtkc_last_block': ['code_length', 'comp_data', 'numeric_data', 'theblock', 'blocksize', 'lastsize', 'compress2_ret', 'comp_length', 'base_data',
+                         'base64_encode_block_ret', 'vtkfile'],
+     'vtkc_sizes': ['byte_length', 'sc_package_id', 'sc_malloc_ret', 'sc_malloc2_ret', 'sc_malloc3_ret'],
+     'vtkc_zero_init': [],
+     'vtkc_zero_step': ['iz', 'header_entries']}
+
+    def gen_encode(tmp):
+        import slicelib as sl
+        X = c07_tools()
+        Emitter, Desugar, ARRAYS, TABLES, stmts_of, one = X["Emitter"], X["Desugar"], X["ARRAYS"], X["TABLES"], X["stmts_of"], X["one"]
+        g = Group("EncodeC06")
+        fe = os.path.join(REPO, "libb64", "cencode.c")
+        fio = os.path.join(REPO, "src", "sc_io.c")
+        inc_nz = os.path.join(tmp, "inc_nz6")
+        os.makedirs(inc_nz, exist_ok=True)
+        vlib.make_config_h(os.path.join(inc_nz, "sc_config.h"), "off", False, False)
+        Inz = [inc_nz] + incs(tmp)[1:]
+        ARRAYS.clear()
+        ARRAYS.update(("pt_at", "code_at"))
+        TABLES.clear()
+        g.text += "From ScV Require Import Gen.Codec.\n\n"
+        KF = {"base64_encode_value": ("base64_encode_value", False)}
+
+        # ---------------- libb64/cencode.c
+        E = Emitter(g, fe, Inz)
+        E.kw = dict(enum_params=True, known_funcs=KF)
+
+        def enum_type(x):
+            # the enumeration base64_encodestep has no negative enumerator: its underlying type is unsigned int
+            t_ = x.get("type")
+            if isinstance(t_, dict) and t_.get("qualType") == "base64_encodestep":
+                x["type"] = {"qualType": "unsigned int"}
+        PR = {"plainchar": "pt_at", "codechar": "code_at"}
+        KEEP = ("base64_encode_value",)
+
+        def D(fname):
+            return Desugar(fname, PR, keep_calls=KEEP)
+        # base64_init_encodestate
+        F = E.fn("base64_init_encodestate")
+        sl.walk(F, enum_type)
+        E.emit(stmts_of(E.body("base64_init_encodestate")), "b64e_init", "base64_init_encodestate", D=D("base64_init_encodestate"),
+               comment="step_A = the enumerator")
+        # base64_encode_block: `switch (step) { while (1) { case step_A: .. case step_B: .. case step_C: .. } }`
+        F = E.fn("base64_encode_block")
+        sl.walk(F, enum_type)
+        B = stmts_of(E.body("base64_encode_block"))
+        sw = one([s for s in B if s.get("kind") == "SwitchStmt"], "encode_block: switch")
+        E.emit([s for s in B[:B.index(sw)] if s.get("kind") != "DeclStmt"], "b64e_enter", "base64_encode_block", D=D("base64_encode_block"),
+               comment="result = state_in->result")
+        dl = [d for s in B[:B.index(sw)] if s.get("kind") == "DeclStmt" for d in s["inner"]]
+        for d in dl:
+            init = [c for c in d.get("inner", []) if isinstance(c, dict) and "kind" in c]
+            if init:
+                t, i = sl.emit_expr(init[0], "b64e_%s_init" % d["name"], "base64_encode_block", want_params=None,
+                                    comment="initial value of %s (pointers as integers)" % d["name"])
+                g.add(t, i)
+        t, i = sl.emit_expr(sw["inner"][0], "b64e_switch_on", "base64_encode_block", want_params=["state_in_step"], comment="the value the switch dispatches on")
+        g.add(t, i)
+        swb = stmts_of(sw["inner"][1])
+        wl = one([s for s in swb if s.get("kind") == "WhileStmt"], "encode_block: while (1)")
+        if len(swb) != 1 or not (sl.strip(wl["inner"][0]).get("kind") == "IntegerLiteral" and sl.strip(wl["inner"][0]).get("value") == "1"):
+            raise c2g.Unsupported("encode_block: the switch body is not a single `while (1)`")
+        groups, cur = [], None
+        for st in stmts_of(wl["inner"][1]):
+            if st.get("kind") == "CaseStmt":
+                lab = sl.refs(st["inner"][0])
+                if len(lab) != 1:
+                    raise c2g.Unsupported("encode_block: case label")
+                cur = [sorted(lab)[0], [st["inner"][-1]]]
+                groups.append(cur)
+            elif cur is None:
+                raise c2g.Unsupported("encode_block: statement before the first case label")
+            else:
+                cur[1].append(st)
+        if [x[0] for x in groups] != ["step_A", "step_B", "step_C"]:
+            raise c2g.Unsupported("encode_block: case labels %s" % [x[0] for x in groups])
+        for lab, sts in groups:
+            # the statements from one case label to the next: fall through into the next label (stop = 0), or return
+            E.emit(sts, "b64e_%s" % lab, "base64_encode_block", D=D("base64_encode_block"),
+                   comment="the statements from `case %s:` to the next label (the last group falls back to step_A by `while (1)`): "
+                           "end of input (state saved, return) or one plaintext byte; pt_at p = the char at plaintext pointer p" % lab)
+        rest = B[B.index(sw) + 1:]
+        E.emit(rest, "b64e_unreachable_return", "base64_encode_block", D=D("base64_encode_block"), comment="behind the switch")
+        # base64_encode_blockend: one slice per case of the switch, the statements behind it
+        F = E.fn("base64_encode_blockend")
+        sl.walk(F, enum_type)
+        B = stmts_of(E.body("base64_encode_blockend"))
+        sw = one([s for s in B if s.get("kind") == "SwitchStmt"], "encode_blockend: switch")
+        t, i = sl.emit_expr(sw["inner"][0], "b64e_end_switch_on", "base64_encode_blockend", want_params=["state_in_step"])
+        g.add(t, i)
+        groups, cur = [], None
+        for st in stmts_of(sw["inner"][1]):
+            if st.get("kind") == "CaseStmt":
+                lab = sl.refs(st["inner"][0])
+                if len(lab) != 1:
+                    raise c2g.Unsupported("encode_blockend: case label")
+                if cur is not None and cur[1][-1].get("kind") != "BreakStmt":
+                    raise c2g.Unsupported("encode_blockend: fall through between cases")
+                cur = [sorted(lab)[0], [st["inner"][-1]]]
+                groups.append(cur)
+            elif cur is None:
+                raise c2g.Unsupported("encode_blockend: statement before the first case label")
+            else:
+                cur[1].append(st)
+        if sorted(x[0] for x in groups) != ["step_A", "step_B", "step_C"] or groups[-1][1][-1].get("kind") != "BreakStmt":
+            raise c2g.Unsupported("encode_blockend: case labels %s" % [x[0] for x in groups])
+        for lab, sts in groups:
+            if any(sl.find_nodes(x, lambda n: n.get("kind") == "BreakStmt") for x in sts[:-1]):
+                raise c2g.Unsupported("encode_blockend: break in the middle of a case")
+            E.emit(sts[:-1], "b64e_end_%s" % lab, "base64_encode_blockend", D=D("base64_encode_blockend"),
+                   comment="case %s of the switch, without its break" % lab)
+        E.emit([s for s in B[B.index(sw) + 1:]], "b64e_end_return", "base64_encode_blockend", D=D("base64_encode_blockend"),
+               comment="behind the switch (SC_BASE64_WRAP undefined: no newline)")
+        pre = [s for s in B[:B.index(sw)] if s.get("kind") != "DeclStmt"]
+        if pre:
+            raise c2g.Unsupported("encode_blockend: statements in front of the switch")
+
+        # ---------------- src/sc_io.c: rewriting rules applied to the AST before the desugaring (each a C identity)
+        #  * `(void) f (..);`  ==>  `f (..);`
+        #  * SC_CHECK_ABORT / SC_ABORT statements are dropped (slicelib convention: the executions that do not abort)
+        #  * `p[k]` for a `char *` VARIABLE p in MOVING (a pointer the function advances): `mem[(size_t) p + k]`, the byte at
+        #    address p + k (so that a store is recorded with its absolute address: ghost outputs mem_widx, mem_wval)
+        #  * `(char *) &x` passed as a data pointer: the symbolic address `addr_of_x`
+        #  * `x += f (..);`  ==>  `f_value = f (..); x += f_value;`
+        #  * `f (.., &x, ..)` with x an integer variable: `f_in_x = x;` is put in front (the value passed in by address becomes an output)
+        MOVING = ("dest", "opos")
+        SZ = {"qualType": "size_t", "desugaredQualType": "unsigned long"}
+        AB = sl.SliceT()
+
+        def prep_expr(n):
+            if not isinstance(n, dict):
+                return n
+            if n.get("kind") == "ArraySubscriptExpr":
+                b = sl.strip(n["inner"][0])
+                if b.get("kind") == "DeclRefExpr" and b["referencedDecl"]["name"] in MOVING and \
+                        c2g.strip_quals(c2g.tystr(b)) in ("char *", "unsigned char *"):
+                    idx = prep_expr(n["inner"][1])
+                    if c2g.int_type(c2g.strip_quals(c2g.tystr(idx))) != (False, 64):
+                        idx = {"kind": "ImplicitCastExpr", "castKind": "IntegralCast", "type": SZ, "inner": [idx]}
+                    addr = {"kind": "BinaryOperator", "opcode": "+", "type": SZ, "inner": [
+                        {"kind": "CStyleCastExpr", "castKind": "PointerToIntegral", "type": SZ, "inner": [n["inner"][0]]}, idx]}
+                    return dict(n, inner=[{"kind": "DeclRefExpr", "referencedDecl": {"name": "mem", "kind": "VarDecl"}, "type": {"qualType": "char *"}}, addr])
+            if n.get("kind") in ("CStyleCastExpr", "ImplicitCastExpr") and n.get("castKind") in ("BitCast", "NoOp"):
+                t = sl.strip(n)
+                if t.get("kind") == "UnaryOperator" and t.get("opcode") == "&" and sl.strip(t["inner"][0]).get("kind") == "DeclRefExpr" and \
+                        c2g.int_type(c2g.strip_quals(c2g.tystr(sl.strip(t["inner"][0])))) is not None:
+                    return {"kind": "DeclRefExpr", "referencedDecl": {"name": "addr_of_" + sl.strip(t["inner"][0])["referencedDecl"]["name"], "kind": "VarDecl"},
+                            "type": {"qualType": "char *"}}
+            if "inner" in n:
+                return dict(n, inner=[prep_expr(c) for c in n["inner"]])
+            return n
+
+        def prep(st):
+            """statement -> list of statements"""
+            k = st.get("kind")
+            if AB.is_abort(st):
+                return []
+            if k == "CompoundStmt":
+                return [dict(st, inner=[y for c in st.get("inner", []) for y in prep(c)])]
+            if k == "CStyleCastExpr" and st.get("castKind") == "ToVoid" and c2g.skip_parens(st["inner"][0]).get("kind") == "CallExpr":
+                return [prep_expr(c2g.skip_parens(st["inner"][0]))]
+            if k in ("IfStmt", "WhileStmt", "DoStmt", "ForStmt"):
+                inner = []
+                for c in st["inner"]:
+                    if isinstance(c, dict) and c.get("kind") in ("CompoundStmt", "IfStmt", "WhileStmt", "DoStmt", "ForStmt") or \
+                            (isinstance(c, dict) and c.get("kind") == "CStyleCastExpr" and c.get("castKind") == "ToVoid"):
+                        r = prep(c)
+                        inner.append(r[0] if len(r) == 1 else {"kind": "CompoundStmt", "inner": r})
+                    else:
+                        inner.append(prep_expr(c))
+                return [dict(st, inner=inner)]
+            if k == "CompoundAssignOperator" and sl.strip(st["inner"][1]).get("kind") == "CallExpr":
+                # `x += f (..);`  ==>  `f_value = f (..); x += f_value;`  (x is not an argument's side effect; f does not see x)
+                call = sl.strip(st["inner"][1])
+                tmpv = {"kind": "DeclRefExpr", "referencedDecl": {"name": sl.callee_name(call) + "_value", "kind": "VarDecl"}, "type": call["type"]}
+                return [{"kind": "BinaryOperator", "opcode": "=", "type": call["type"], "inner": [tmpv, prep_expr(st["inner"][1])]},
+                        dict(st, inner=[st["inner"][0], {"kind": "ImplicitCastExpr", "castKind": "LValueToRValue", "type": call["type"], "inner": [tmpv]}])]
+            call = None
+            if k == "CallExpr":
+                call = st
+            elif k == "BinaryOperator" and st.get("opcode") == "=" and sl.strip(st["inner"][1]).get("kind") == "CallExpr":
+                call = sl.strip(st["inner"][1])
+            pre_ = []
+            if call is not None:
+                # `f (.., &x, ..)` with x an integer variable: the value passed in by address is recorded (`f_in_x = x;` in front)
+                for a in call["inner"][1:]:
+                    a_ = sl.strip(a)
+                    if a_.get("kind") == "UnaryOperator" and a_.get("opcode") == "&" and sl.strip(a_["inner"][0]).get("kind") == "DeclRefExpr":
+                        x_ = sl.strip(a_["inner"][0])
+                        if c2g.int_type(c2g.strip_quals(c2g.tystr(x_))) is not None and a.get("kind") != "CStyleCastExpr":
+                            gv = {"kind": "DeclRefExpr", "referencedDecl": {"name": "%s_in_%s" % (sl.callee_name(call), x_["referencedDecl"]["name"]), "kind": "VarDecl"}, "type": x_["type"]}
+                            pre_.append({"kind": "BinaryOperator", "opcode": "=", "type": x_["type"], "inner": [
+                                gv, {"kind": "ImplicitCastExpr", "castKind": "LValueToRValue", "type": x_["type"], "inner": [x_]}]})
+            return pre_ + [prep_expr(st)]
+
+        def body_of(E_, name):
+            return [y for c in stmts_of(E_.body(name)) if c.get("kind") != "DeclStmt" for y in prep(c)]
+
+        EFFECTS = ("memcpy", "sc_io_adler32_update", "sc_io_adler32_init", "sc_array_init_count", "sc_io_noncompress", "sc_array_resize", "sc_array_reset",
+                   "base64_init_encodestate", "base64_encode_block", "base64_encode_blockend", "compressBound", "compress2", "sc_malloc", "sc_free",
+                   "fwrite", "ftell", "fseek")
+        KEEP2 = EFFECTS + ("sc_io_noncompress_bound", "ferror")
+        KF2 = {"sc_io_noncompress_bound": ("sc_io_noncompress_bound", False)}
+        KW = dict(known_funcs=KF2, effects=EFFECTS, effect_called=True, symbolic_calls=("ferror",),
+                  elem_ptr_types=("Bytef *", "const Bytef *"))
+        ARRAYS.update(("mem", "original_size", "base_data", "compression_header"))
+
+        class Desugar2(Desugar):
+            """a kept call at statement level stays a statement (groups_C07's Desugar has no such calls and drops the value)"""
+
+            def ds(self, s_):
+                if s_.get("kind") == "CallExpr" and sl.callee_name(s_) in self.keep_calls:
+                    e_, pre_, post_ = self.dx(s_, s_)
+                    return pre_ + [e_] + post_
+                return super().ds(s_)
+
+        def D2(fname):
+            return Desugar2(fname, {}, keep_calls=KEEP2)
+
+        EC = dict(zip(Emitter.emit.__code__.co_freevars, [c.cell_contents for c in (Emitter.emit.__closure__ or ())]))
+        if "assigned_order" not in EC:
+            raise c2g.Unsupported("EncodeC06: groups_C07.py no longer provides assigned_order")
+
+        def emit2(E_, stmts, gname, fname, comment="", raw=False, Dx=None, drop=()):
+            """as Emitter.emit of groups_C07.py, with the ghost outputs of the CALLS (slicelib `effects`) in front"""
+            Dx = Dx or D2(fname)
+            ds = list(stmts) if raw else [y for s_ in stmts for y in Dx.ds(s_)]
+            locs = [k_ for k_ in EC["assigned_order"](ds) if k_ not in Dx.ghosts and k_ not in drop]
+            outs = ["*ghosts"] + Dx.ghosts + locs + ["stop"]
+            init = dict((gh, "0") for gh in Dx.ghosts)
+            t, i = sl.emit_block(ds, gname, outs, fname, init=init, jumps_end=True, comment=comment,
+                                 array_reads=tuple(sorted((Dx.arrays_read | set(Dx.stores)) - TABLES)), drop_calls=("sc_log", "sc_logf"), **E_.kw)
+            t = t.replace(" *)\nDefinition", "; returns (%s) *)\nDefinition" % ", ".join(i["outputs"]), 1)
+            if gname in E_.names:
+                raise c2g.Unsupported("duplicate slice name " + gname)
+            E_.names.append(gname)
+            g.add(t, i)
+            return i
+
+        # ---------------- sc_io_adler32_init, sc_io_noncompress (configuration without zlib)
+        E = Emitter(g, fio, Inz)
+        E.kw = dict(KW)
+        emit2(E, body_of(E, "sc_io_adler32_init"), "adler32_init", "sc_io_adler32_init", comment="*adler = 1")
+        N = [s_ for s_ in body_of(E, "sc_io_noncompress") if "sc_io_adler32_init_in_adler" not in sl.refs(s_)]   # adler is not initialised before
+        do = one([s for s in N if s.get("kind") == "DoStmt"], "noncompress: loop")
+        kd = N.index(do)
+        if not (kd >= 1 and N[kd - 1].get("kind") == "CallExpr" and sl.callee_name(N[kd - 1]) == "sc_io_adler32_init" and
+                sl.SliceT().addr_of_var(N[kd - 1]["inner"][1]) == "adler"):
+            raise c2g.Unsupported("noncompress: sc_io_adler32_init (&adler) is not the statement in front of the loop")
+        emit2(E, N[:kd - 1], "nonc_header", "sc_io_noncompress",
+               comment="zlib header bytes; mem a = the byte at address a")
+        Dn = D2("sc_io_noncompress")
+        emit2(E, Dn.loop_step(do), "nonc_block", "sc_io_noncompress", Dx=Dn, raw=True,
+               comment="one iteration of the do loop: block header, copy, checksum, `while (src_size > 0)`; adler is passed by address to "
+                       "sc_io_adler32_update (Gen/Codec.v)")
+        emit2(E, N[kd + 1:], "nonc_trailer", "sc_io_noncompress", comment="the four checksum bytes, big endian")
+
+        # ---------------- sc_io_encode / sc_io_encode_zlib, both configurations
+        Ez = Emitter(g, fio, incs(tmp))
+        Ez.kw = dict(KW)
+        c = one(sl.find_nodes(E.body("sc_io_encode"), lambda n: n.get("kind") == "CallExpr"), "sc_io_encode: call")
+        if sl.callee_name(c) != "sc_io_encode_zlib" or [sl.strip(a).get("referencedDecl", {}).get("name") for a in c["inner"][1:3]] != ["data", "out"]:
+            raise c2g.Unsupported("sc_io_encode does not call sc_io_encode_zlib (data, out, ..)")
+        for k_, nm in ((3, "enc_default_level"), (4, "enc_default_break")):
+            t, i = sl.emit_expr(c["inner"][k_], nm, "sc_io_encode", want_params=[])
+            g.add(t, i)
+
+        def encode_parts(E_, tag):
+            T_ = body_of(E_, "sc_io_encode_zlib")
+            fl = [s_ for s_ in T_ if s_.get("kind") == "ForStmt"]
+            if len(fl) != 2:
+                raise c2g.Unsupported("sc_io_encode_zlib: %d loops" % len(fl))
+            k1, k2 = T_.index(fl[0]), T_.index(fl[1])
+            cut = [k_ for k_, s_ in enumerate(T_) if s_.get("kind") == "IfStmt" and sl.refs(s_["inner"][0]) == {"out"} and k1 < k_ < k2]
+            if len(cut) != 1:
+                raise c2g.Unsupported("sc_io_encode_zlib: no single `if (out == NULL)` between the loops")
+            parts = []
+            names0 = list(E_.names)
+
+            def part(stmts, nm, comment, step=None):
+                Dx = D2("sc_io_encode_zlib")
+                if step is not None:
+                    stmts = Dx.loop_step(step)
+                G_ = Group("tmp")
+                saved = E_.g, g.text, list(g.infos)
+                i = emit2(E_, stmts, nm, "sc_io_encode_zlib", comment=comment, Dx=Dx, raw=step is not None)
+                parts.append((nm, g.text[len(saved[1]):], i))
+                g.text, g.infos[:] = saved[1], saved[2]
+                E_.names.remove(nm)
+            part(T_[:k1], "enc_input_size", "the asserts are compiled out; input_size")
+            part([fl[0]["inner"][0]], "enc_size_init", "")
+            part(None, "enc_size_step", "one iteration of the size loop: big-endian byte i of input_size", step=fl[0])
+            part(T_[k1 + 1:cut[0]], "enc_compress_" + tag, "the format letter, the compression bound, the temporary array, the compression call")
+            part(T_[cut[0]:k2], "enc_prepare", "output array, sizes, resize, encoder state, the NUL of an empty text")
+            part([fl[1]["inner"][0]], "enc_line_init", "")
+            part(None, "enc_line_step", "one iteration of the line loop (mem a = the byte at address a)", step=fl[1])
+            part(T_[k2 + 1:], "enc_finish", "free the temporary array")
+            return parts
+        pz, pn = encode_parts(Ez, "z"), encode_parts(E, "nz")
+        for (nm1, t1, i1), (nm2, t2, i2) in zip(pz, pn):
+            if nm1 == nm2:
+                if t1 != t2:
+                    raise c2g.Unsupported("sc_io_encode_zlib: slice %s differs between the configurations with and without zlib" % nm1)
+                g.add(t2.rstrip("\n") + "\n", i2)
+            else:
+                g.add(t2.rstrip("\n") + "\n", i2)
+                g.add(t1.rstrip("\n") + "\n", i1)
+
+        # ---------------- sc_vtk_write_binary (identical in both configurations: checked), sc_vtk_write_compressed (with zlib)
+        def vtkb_parts(E_):
+            V = body_of(E_, "sc_vtk_write_binary")
+            wl = one([s_ for s_ in V if s_.get("kind") == "WhileStmt"], "sc_vtk_write_binary: loop")
+            kw_ = V.index(wl)
+            t0, n0 = g.text, len(g.infos)
+            emit2(E_, V[:kw_], "vtkb_header", "sc_vtk_write_binary",
+                  comment="chunk size, length word, buffer, encoder state, the length word encoded; addr_of_int_header = (char *) &int_header")
+            Dx = D2("sc_vtk_write_binary")
+            emit2(E_, Dx.loop_step(wl), "vtkb_chunk_step", "sc_vtk_write_binary", Dx=Dx, raw=True, comment="one iteration of `while (remaining > 0)`")
+            emit2(E_, V[kw_ + 1:], "vtkb_finish", "sc_vtk_write_binary", comment="end of the base-64 stream, free, return value")
+            txt, infos = g.text[len(t0):], g.infos[n0:]
+            g.text = t0
+            del g.infos[n0:]
+            for nm in ("vtkb_header", "vtkb_chunk_step", "vtkb_finish"):
+                E_.names.remove(nm)
+            return txt, infos
+        tz, iz_ = vtkb_parts(Ez)
+        tn, in_ = vtkb_parts(E)
+        if tz != tn:
+            raise c2g.Unsupported("sc_vtk_write_binary differs between the configurations with and without zlib")
+        g.text += tz
+        g.infos += iz_
+
+        W = body_of(Ez, "sc_vtk_write_compressed")
+        fl = [s_ for s_ in W if s_.get("kind") == "ForStmt"]
+        if len(fl) != 2:
+            raise c2g.Unsupported("sc_vtk_write_compressed: %d loops at the top level" % len(fl))
+        k1, k2 = W.index(fl[0]), W.index(fl[1])
+        emit2(Ez, W[:k1], "vtkc_sizes", "sc_vtk_write_compressed", comment="block sizes, buffers, the first three header words")
+        emit2(Ez, [fl[0]["inner"][0]], "vtkc_zero_init", "sc_vtk_write_compressed")
+        Dx = D2("sc_vtk_write_compressed")
+        emit2(Ez, Dx.loop_step(fl[0]), "vtkc_zero_step", "sc_vtk_write_compressed", Dx=Dx, raw=True, comment="one iteration of the loop that clears the size words")
+        emit2(Ez, W[k1 + 1:k2], "vtkc_dummy_header", "sc_vtk_write_compressed", comment="the dummy header is encoded and written, the encoder state is initialised again")
+        emit2(Ez, [fl[1]["inner"][0]], "vtkc_block_init", "sc_vtk_write_compressed")
+        Dx = D2("sc_vtk_write_compressed")
+        emit2(Ez, Dx.loop_step(fl[1]), "vtkc_block_step", "sc_vtk_write_compressed", Dx=Dx, raw=True,
+              comment="one regular block: compress2 (its output length is comp_length afterwards), size word, encode, write")
+        tail = W[k2 + 1:]
+        if not tail or tail[0].get("kind") != "IfStmt" or sl.refs(tail[0]["inner"][0]) != {"lastsize"} or len(tail[0]["inner"]) != 2:
+            raise c2g.Unsupported("sc_vtk_write_compressed: no `if (lastsize > 0)` without else behind the block loop")
+        t, i = sl.emit_cond(tail[0]["inner"][0], "vtkc_has_last", "sc_vtk_write_compressed", want_params=["lastsize"])
+        g.add(t, i)
+        emit2(Ez, [tail[0]["inner"][1]], "vtkc_last_block", "sc_vtk_write_compressed", comment="the odd-sized last block")
+        emit2(Ez, tail[1:], "vtkc_finish", "sc_vtk_write_compressed", comment="end of the data stream, the real header written over the dummy, clean up, return value")
+        # the theorems apply the generated definitions BY POSITION: the parameter list of every slice is fixed here, so that an edit which
+        # replaces one variable by another (and would only rename a parameter) makes the group fail instead of passing unnoticed
+        got = dict((i_["name"], list(i_.get("params") or [])) for i_ in g.infos)
+        if got != EXPECT_PARAMS:
+            bad = sorted(k_ for k_ in set(got) | set(EXPECT_PARAMS) if got.get(k_) != EXPECT_PARAMS.get(k_))
+            raise c2g.Unsupported("EncodeC06: the free variables of slice(s) %s changed: %s, expected %s" % (
+                ", ".join(bad), [got.get(k_) for k_ in bad], [EXPECT_PARAMS.get(k_) for k_ in bad]))
+        return g, [fe, fio]
+
+    GROUPS["EncodeC06"] = gen_encode
+
+    # --------------------------------------------------------------------------------------------------------
+    # Group `StaticC06` (coq/Gen/StaticC06.v): census of the objects with static storage duration
+    # --------------------------------------------------------------------------------------------------------
+    def census(cfile, I):
+        """Every variable DEFINITION with static storage duration in the translation unit of cfile (file scope, or `static` inside a
+        function), in source order: (name, function it is local to or "", is its type const-qualified, sites) where sites is the
+        list without repetitions, in source order, of (function, kind, guard):
+          kind  = "read"  the value (of the variable, one of its members or elements) is read
+                  "write" it (a member, an element) is the target of = / op= / ++ / --
+                  "arg:<callee>:const|mut" its address (or the array) is passed to <callee> whose parameter is a pointer to const / non-const
+                  "escape" its address is taken, or the array decays to a pointer, in any other way (e.g. stored into a pointer)
+          guard = v if the site lies in the then-branch of `if (v)` for a variable v with static storage duration, else "".
+        Whatever does not fit (a reference the classification does not understand) is recorded as kind "unknown"."""
+        import subprocess
+        cmd = ["clang", "-fsyntax-only", "-w"] + ["-I" + i for i in I] + ["-Xclang", "-ast-dump=json", cfile]
+        p = subprocess.run(cmd, stdout=subprocess.PIPE, stderr=subprocess.PIPE)
+        if p.returncode != 0:
+            raise c2g.Unsupported("clang failed on %s: %s" % (cfile, p.stderr.decode()[-300:]))
+        tu = json.loads(p.stdout.decode())
+        statics = {}          # id -> [name, function, const, sites]
+        order = []
+
+        def is_const(q):
+            q = q.strip()
+            # the object itself is const: `const T x`, `const T x[n]`, `T *const x`; not `const T *x`
+            if q.endswith("]"):
+                q = q[:q.index("[")].strip()
+            if q.endswith("*const") or q.endswith("* const"):
+                return True
+            if "*" in q:
+                return False
+            return bool(re.search(r"\bconst\b", q))
+
+        def add(d, fn):
+            statics[d["id"]] = [d["name"], fn, is_const(d["type"]["qualType"]), []]
+            order.append(d["id"])
+
+        def find_statics(n, fn):
+            for c in n.get("inner", []):
+                if not isinstance(c, dict):
+                    continue
+                if c.get("kind") == "VarDecl" and c.get("storageClass") == "static":
+                    add(c, fn)
+                find_statics(c, fn)
+        funcs = []
+        for o in tu.get("inner", []):
+            if o.get("kind") == "VarDecl" and not (o.get("storageClass") == "extern" and "init" not in o):
+                add(o, "")
+            if o.get("kind") == "FunctionDecl" and any(c.get("kind") == "CompoundStmt" for c in o.get("inner", [])):
+                funcs.append(o)
+                find_statics(o, o["name"])
+
+        def callee_param_const(call, argi):
+            cal = call["inner"][0]
+            while cal.get("kind") in ("ImplicitCastExpr", "ParenExpr"):
+                cal = cal["inner"][0]
+            name = cal.get("referencedDecl", {}).get("name", "?")
+            q = cal.get("referencedDecl", {}).get("type", {}).get("qualType", "")
+            m = re.match(r"^.*?\((.*)\)$", q)
+            ps = [x.strip() for x in m.group(1).split(",")] if m else []
+            if argi < len(ps) and re.match(r"^const\b[^*]*\*$", ps[argi]):
+                return name, "const"
+            return name, "mut"
+
+        def visit(n, fn, guard, parents):
+            if not isinstance(n, dict):
+                return
+            k = n.get("kind")
+            if k == "DeclRefExpr" and n.get("referencedDecl", {}).get("id") in statics:
+                ent = statics[n["referencedDecl"]["id"]]
+                # climb: members, subscripts (through the decay of the array itself), parentheses
+                i = len(parents) - 1
+                cur = n
+                kind = None
+                while i >= 0:
+                    p_ = parents[i]
+                    pk = p_.get("kind")
+                    if pk == "ParenExpr" or (pk == "MemberExpr" and not p_.get("isArrow")):
+                        cur, i = p_, i - 1
+                        continue
+                    if pk == "ImplicitCastExpr" and p_.get("castKind") == "ArrayToPointerDecay" and i >= 1 and \
+                            parents[i - 1].get("kind") == "ArraySubscriptExpr" and parents[i - 1]["inner"][0] is p_:
+                        cur, i = parents[i - 1], i - 2
+                        continue
+                    break
+                p_ = parents[i] if i >= 0 else {}
+                pk = p_.get("kind")
+                if pk == "ImplicitCastExpr" and p_.get("castKind") == "LValueToRValue":
+                    kind = "read"
+                elif pk in ("BinaryOperator", "CompoundAssignOperator") and (p_.get("opcode") == "=" or pk == "CompoundAssignOperator") and p_["inner"][0] is cur:
+                    kind = "write"
+                elif pk == "UnaryOperator" and p_.get("opcode") in ("++", "--"):
+                    kind = "write"
+                elif pk == "UnaryExprOrTypeTraitExpr":
+                    kind = "read"       # sizeof
+                elif (pk == "UnaryOperator" and p_.get("opcode") == "&") or (pk == "ImplicitCastExpr" and p_.get("castKind") == "ArrayToPointerDecay"):
+                    # where does the pointer go?
+                    j, node = i - 1, p_
+                    while j >= 0 and parents[j].get("kind") in ("ImplicitCastExpr", "CStyleCastExpr", "ParenExpr"):
+                        node, j = parents[j], j - 1
+                    if j >= 0 and parents[j].get("kind") == "CallExpr" and node in parents[j]["inner"][1:]:
+                        kind = "arg:%s:%s" % callee_param_const(parents[j], parents[j]["inner"].index(node) - 1)
+                    else:
+                        kind = "escape"
+                else:
+                    kind = "unknown"
+                site = (fn, kind, guard)
+                if site not in ent[3]:
+                    ent[3].append(site)
+                return
+            if k == "IfStmt":
+                cond = n["inner"][0]
+                c0 = cond
+                while c0.get("kind") in ("ImplicitCastExpr", "ParenExpr"):
+                    c0 = c0["inner"][0]
+                visit(cond, fn, guard, parents + [n])
+                g2 = guard
+                if c0.get("kind") == "DeclRefExpr" and c0.get("referencedDecl", {}).get("id") in statics:
+                    g2 = statics[c0["referencedDecl"]["id"]][0]
+                visit(n["inner"][1], fn, g2, parents + [n])
+                for c in n["inner"][2:]:
+                    visit(c, fn, guard, parents + [n])
+                return
+            for c in n.get("inner", []):
+                visit(c, fn, guard, parents + [n])
+        for F in funcs:
+            visit(F, F["name"], "", [])
+        return [tuple(statics[i][:3]) + (statics[i][3],) for i in order]
+
+    def gen_static(tmp):
+        g = Group("StaticC06")
+        inc_nz = os.path.join(tmp, "inc_nzs")
+        os.makedirs(inc_nz, exist_ok=True)
+        vlib.make_config_h(os.path.join(inc_nz, "sc_config.h"), "off", False, False)
+        I = [inc_nz] + incs(tmp)[1:]
+        g.text += "From Coq Require Import String.\nLocal Open Scope string_scope.\n\n"
+        g.text += "(* (variable, function it is local to, const-qualified object, [(function, kind of use, guard)]): see tools/c2g/groups_C06.py `census` *)\n"
+        g.text += "Definition census_t := list (string * string * bool * list (string * string * string)).\n\n"
+        files = []
+        for nm, rel in (("puff", ("src", "sc_puff.c")), ("cencode", ("libb64", "cencode.c")), ("cdecode", ("libb64", "cdecode.c"))):
+            f = os.path.join(REPO, *rel)
+            files.append(f)
+            cs = census(f, I)
+            rows = []
+            for (v, fn, cst, sites) in cs:
+                rows.append('  ("%s", "%s", %s, [%s])' % (v, fn, "true" if cst else "false", "; ".join('("%s", "%s", "%s")' % s_ for s_ in sites)))
+            g.add("Definition %s_static_census : census_t :=\n[%s].\n" % (nm, ";\n".join(rows).lstrip()), dict(name=nm + "_static_census", entries=len(cs)))
+        return g, files
+
+    GROUPS["StaticC06"] = gen_static
